@@ -172,6 +172,34 @@ static Classification analyse(const SemModel &m, const IrModel &ir, Rng &rng, co
             viol("C05", "invariant:variable-computed-by-several-equations:" + variant, av->variable()->name() + " has " + std::to_string(eqs.size()) + " equations", text);
         }
     }
+    // 3b. NLA bookkeeping is consistent: the siblings of an NLA equation are exactly the other equations carrying the same
+    //     system index, and equations of different systems compute disjoint sets of variables
+    {
+        std::map<size_t, std::set<const AnalyserEquation *>> bySystem;
+        for (size_t i = 0; i < am->equationCount(); ++i) {
+            auto e = am->equation(i);
+            if (e->type() == AnalyserEquation::Type::NLA) {
+                bySystem[e->nlaSystemIndex()].insert(e.get());
+            }
+        }
+        for (size_t i = 0; i < am->equationCount(); ++i) {
+            auto e = am->equation(i);
+            if (e->type() != AnalyserEquation::Type::NLA) {
+                continue;
+            }
+            stat("nla_equations_checked");
+            std::set<const AnalyserEquation *> sib;
+            for (const auto &x : e->nlaSiblings()) {
+                sib.insert(x.get());
+            }
+            auto expect = bySystem[e->nlaSystemIndex()];
+            expect.erase(e.get());
+            if (sib != expect) {
+                viol("C05", "invariant:nla-siblings-disagree-with-system-index:" + variant, "equation " + std::to_string(i) + " system " + std::to_string(e->nlaSystemIndex()) + " has " + std::to_string(sib.size()) + " siblings, " + std::to_string(expect.size()) + " other equations carry its index", text);
+            }
+        }
+        seen("nla_system_count", std::to_string(bySystem.size()));
+    }
     // 4. dependencies: an equation depends on the equations computing the computed (non-state) variables it reads
     std::map<int, AnalyserVariablePtr> avOf;
     for (const auto &av : all) {
@@ -300,6 +328,8 @@ void vh_run_case(Ctx &ctx)
     so.exprDepth = rng.range(1, 2);
     so.nlaGuess = rng.chance(0.5);
     so.nlaDense = rng.chance(0.4);
+    so.nlaSystems = rng.chance(0.35) ? 2 : 1;
+    so.compoundUnits = rng.chance(0.3);
     SemModel m = generateSemModel(rng, so);
     std::string wantType = m.voi >= 0 ? (m.nla.empty() ? "ode" : "dae") : (m.nla.empty() ? "algebraic" : "nla");
     IrModel ir = semToIr(m);
@@ -331,6 +361,28 @@ void vh_run_case(Ctx &ctx)
             nlaShape = "dense";
         }
         nlaShape += so.nlaGuess ? "+guess" : "+noguess";
+        if (m.nla.size() > 1) {
+            // shape of the sparsest system decides analysability; two systems are labelled as such
+            for (size_t si = 1; si < m.nla.size(); ++si) {
+                const auto &sy = m.nla[si];
+                if (sy.unknowns.size() > 1 && !so.nlaDense) {
+                    bool tri = false;
+                    for (const auto &eq : sy.equations) {
+                        std::set<int> r;
+                        leafQuantities(eq.lhs, r);
+                        leafQuantities(eq.rhs, r);
+                        tri = tri || r.size() == 1;
+                    }
+                    if (tri && nlaShape.find("triangular") == std::string::npos) {
+                        nlaShape = "triangular" + nlaShape.substr(nlaShape.find('+'));
+                    } else if (nlaShape.rfind("n1", 0) == 0) {
+                        nlaShape = "coupled" + nlaShape.substr(nlaShape.find('+'));
+                    }
+                } else if (sy.unknowns.size() > 1 && nlaShape.rfind("n1", 0) == 0) {
+                    nlaShape = "dense" + nlaShape.substr(nlaShape.find('+'));
+                }
+            }
+        }
     }
     seen("nla_shape", nlaShape);
     stat("nla_" + nlaShape);
@@ -504,6 +556,62 @@ void vh_run_case(Ctx &ctx)
                     viol("C05", "constrained:no-error:" + want, "", text);
                 }
                 monitorExplained(true, *analyser, "Analyser::analyseModel(" + got + ")", text);
+            }
+        }
+    }
+    // ---- over-constrained through a duplicated ODE (second, constant rate for one state)
+    {
+        // only states whose rate reads no computed quantity (otherwise the extra ODE can be read as an equation for that
+        // quantity and the ground truth is no longer clear-cut).  When the extra ODE comes first, the real one is the
+        // surplus equation, and if it reads an initialised constant libcellml legitimately takes it as an (NLA) equation
+        // for that constant with the initial value as a guess: then only rates over states and the variable of
+        // integration have a clear-cut expectation.
+        bool extraFirst = rng.chance(0.5);
+        std::vector<int> sts;
+        for (int sq : stateQuantities(m)) {
+            std::set<int> r;
+            leafQuantities(m.q[static_cast<size_t>(sq)].def, r);
+            bool plain = true;
+            for (int x : r) {
+                auto k = m.q[static_cast<size_t>(x)].kind;
+                plain = plain && ((k == QKind::CONSTANT && !extraFirst) || k == QKind::STATE || k == QKind::VOI);
+            }
+            if (plain) {
+                sts.push_back(sq);
+            }
+        }
+        if (!sts.empty() && base.valid && m.nla.empty() && ctx.index % 3 == 0) {
+            int s = rng.pick(sts);
+            const auto &q = m.q[static_cast<size_t>(s)];
+            const auto &di = q.inst[static_cast<size_t>(q.defInst)];
+            IrModel irc = ir;
+            std::string tname = m.q[static_cast<size_t>(m.voi)].inst[0].name;
+            for (const auto &in : m.q[static_cast<size_t>(m.voi)].inst) {
+                if (in.comp == di.comp) {
+                    tname = in.name;
+                }
+            }
+            auto &eqs = irc.comps[static_cast<size_t>(di.comp)].math[0];
+            auto extra = mkOp(Op::EQ, {mkDiff(di.name, tname), mkCnD(2.5)});
+            if (!extraFirst) {
+                eqs.push_back(extra);
+            } else {
+                eqs.insert(eqs.begin(), extra);
+            }
+            std::string text = writeCellml2(irc, WriteStyle());
+            auto model = Parser::create(true)->parseModel(text);
+            if (model != nullptr) {
+                stage("analyse duplicated-ode");
+                auto analyser = Analyser::create();
+                analyser->analyseModel(model);
+                monitorLogger(*analyser, "Analyser::analyseModel", text);
+                auto am = analyser->model();
+                std::string got = am != nullptr ? AnalyserModel::typeAsString(am->type()) : "null";
+                stat("constrained_variants");
+                stat("duplicated_ode_variants");
+                if (got != "overconstrained") {
+                    viol("C05", "constrained:" + got + "-expected-overconstrained:duplicated-ode", "state " + q.inst[0].name + " has two ODEs\n" + issueSummary(*analyser, 6), text);
+                }
             }
         }
     }
